@@ -87,6 +87,9 @@ CLAIMED = {
     technique="property-based testing (Hypothesis) against an exact-arithmetic reference model", ref="4/C18"),
 }
 
+FUZZED = ["C01", "C02", "C03", "C04", "C05", "C06", "C07", "C11", "C12", "C15", "C16", "C17", "C18"]
+
+
 def main():
     checks = []
     for pid in ALL:
@@ -102,7 +105,8 @@ def main():
             engine="vfw",
             level_claimed=dict(category="exploration", text=c["text"], design_ref="DESIGN.md section " + c["ref"]),
             level_note=c["note"],
-            technique=c["technique"],
+            technique=c["technique"] + ("; the thorough tier adds coverage-guided fuzzing (atheris / libFuzzer, one campaign per core) "
+                                        "over the same strategies and oracles" if pid in FUZZED else ""),
         ))
     na = [dict(property_id=p, reason="not claimed: see DESIGN.md")
           for p in ALL if p not in CLAIMED]
@@ -113,7 +117,7 @@ def main():
                    baseline_off_cmd="cd /repo && /venv/bin/python -m pytest -ra -q -p no:cacheprovider --timeout=900 --continue-on-collection-errors",
                    source_commits=[], add_only=True),
         engines=[dict(name="vfw", path="vfw/core.py", serves_properties=sorted(CLAIMED),
-                      kind_free_text="property-based testing runner: Hypothesis strategies / bounded enumeration sharded over 16 processes, explicit oracles, shrinking, replay files, evidence writer")],
+                      kind_free_text="property-based testing runner: Hypothesis strategies / bounded enumeration sharded over 16 processes, explicit oracles, shrinking, replay files, evidence writer; vfw/fuzz.py drives the same strategies and oracles from atheris / libFuzzer campaigns in the thorough tier")],
         checks=checks,
         notes="All checks: exit 0 held / 1 VIOLATION (not an open known finding) / 2 harness error. VERIF_SEED selects the Hypothesis seeds. known_findings.json lists fixed and open findings.",
         not_applicable=na,
